@@ -61,6 +61,9 @@
     __CPROVER_assert(__CPROVER_same_object(p, base), "re-anchor is the identity: returned pointer lies in its buffer"); \
     __CPROVER_ssize_t cqv_ro = __CPROVER_POINTER_OFFSET(p) - __CPROVER_POINTER_OFFSET(base); p = (base) + cqv_ro; }
 
+/* *p written as base[p - base] (see the @replace note in contracts/snappy_comp.ovl) */
+#define CQV_AT(base, p) ((base)[(size_t)((p) - (base))])
+
 /* ghost index (arbitrary byte of dst) and its pre-state value: 'refused => not written' */
 size_t cqv_k;
 uint8_t cqv_old_dst_k;
